@@ -1,0 +1,25 @@
+// Copyright 2022 The Go Authors. All rights reserved.
+// Use of this source code is governed by a BSD-style
+// license that can be found in the LICENSE file.
+
+//go:build verif
+
+// Machine-checked contracts for the legacy benchstat library (//@ lines, read
+// by /verif/gocv).  Compiled only under the "verif" tag; comment-only.
+
+package benchstat
+
+// Rows are sorted stably: Sort goes through the stable library sort.
+//@ func Sort(t *Table, order Order)
+//@   props C17
+//@   requires t != nil
+//@   ensures stableSorted(iface(t.Rows))
+
+// The delta tests compare the retained values (RValues) of the two sides, in
+// the order old, new, two-sided.
+//@ func UTest(old, new *Metrics) (pval float64, err error)
+//@   props C17
+//@   requires old != nil && new != nil
+//@   ensures stats.MannWhitneyUTest_1(old.RValues, new.RValues, stats.LocationDiffers) == nil ==>
+//@             err == nil && bits(pval, stats.MannWhitneyUTest_0(old.RValues, new.RValues, stats.LocationDiffers).P)
+//@   ensures stats.MannWhitneyUTest_1(old.RValues, new.RValues, stats.LocationDiffers) != nil ==> err != nil && pval == 0.0 - 1.0
